@@ -352,3 +352,38 @@ Theorem C04_flag_constant_refuted : exists s o, run (ex_cache_cfg 64) (init (ex_
   txs o = [(1, [0; 0]); (1, [1; 0]); (2, [1; 0; 7; 0])].
 Proof. exact ex_flag_constant. Qed.
 Print Assumptions C04_flag_constant_refuted.
+
+(* ---------------------------------------------------------------- one received packet, many callbacks: dispatch by value *)
+
+(* Delivery of a packet p: the updater's callback runs first; the closure list it leaves is the one it found; and every closure is
+   matched against, and decodes, the bytes of p AS RECEIVED — nothing an earlier callback does to its argument reaches a later one. *)
+Theorem C04_dispatch_is_by_value : forall c s p rest, d_out s = p :: rest ->
+  exists s1 o1, updater_cb c p (set_dev s (d_store s) (d_stored s) rest) = (s1, o1) /\ s_clos s1 = s_clos s /\
+    step c s EvDeliver =
+    Some (set_clos s1 (filter (fun k => negb (clo_fires (idmatch c) p k)) (s_clos s1)), ORx p :: o1 ++ clo_obs (idmatch c) p (s_clos s1)).
+Proof.
+  intros c s p rest Eo. destruct (updater_cb c p (set_dev s (d_store s) (d_stored s) rest)) as [s1 o1] eqn:Eu.
+  exists s1, o1. split; [reflexivity|]. split.
+  - apply updater_cb_pend in Eu as [_ [_ [Ek _]]]. exact Ek.
+  - cbn [step]. rewrite Eo, Eu. reflexivity.
+Qed.
+Print Assumptions C04_dispatch_is_by_value.
+
+(* An unsolicited MISC_VALUE_UPDATED notification, WHATEVER its index and value bytes (also when index = command | id_lo << 8 and
+   the first value byte = id_hi of a parameter with a misc request outstanding), calls no misc callback and removes no closure. *)
+Theorem C04_notification_never_answers_a_request : forall c evs s o0 data rest s1 o,
+  wf c -> run c (init c) evs = Some (s, o0) -> d_out s = (3, 1 :: data) :: rest ->
+  step c s EvDeliver = Some (s1, o) -> misc_calls o = [] /\ s_clos s1 = s_clos s.
+Proof.
+  intros c evs s o0 data rest s1 o Hw Hr Eo Hs.
+  eapply (deliver_value_no_misc c s (3, 1 :: data) rest (le_val (slice (1 :: data) 1 3)) (skipn 3 (1 :: data))); eauto.
+  eapply reach_inv; eauto.
+Qed.
+Print Assumptions C04_notification_never_answers_a_request.
+
+(* With callbacks sharing a mutable packet and an updater that strips the notification's command byte in place, the notification
+   "parameter 6 := 0x2A00" is consumed as the default value (42 instead of 7) of parameter 0, and the real reply reaches nobody. *)
+Theorem C04_in_place_strip_refuted : exists s o, run_strip ex_al (init ex_al) ex_al_events = Some (s, o) /\
+  misc_calls o = [(1, 0, MDefault (VInt 42))] /\ s_clos s = [].
+Proof. exact ex_strip_misattributes. Qed.
+Print Assumptions C04_in_place_strip_refuted.
